@@ -4,6 +4,7 @@ import (
 	"bufio"
 	"fmt"
 	"io"
+	"os"
 	"os/exec"
 	"strconv"
 	"strings"
@@ -425,4 +426,93 @@ func unescapeSMT(s string) string {
 		sb.WriteByte(s[i])
 	}
 	return sb.String()
+}
+
+// OneShot decides the conjunction with a fresh, non-incremental solver
+// process (z3's incremental mode does not use its bit-blasting tactic and can
+// be orders of magnitude slower on the same query).
+func OneShot(name string, bank *Bank, asserts []*Term, timeout time.Duration, wantModel bool, prelude []string, cancel <-chan struct{}) (Verdict, *Model) {
+	em := NewEmitter(bank)
+	var sb strings.Builder
+	if name == "cvc5" {
+		sb.WriteString("(set-logic ALL)\n")
+	}
+	sb.WriteString("(set-option :produce-models true)\n")
+	for _, l := range prelude {
+		sb.WriteString(l + "\n")
+	}
+	for _, l := range em.Define(asserts...) {
+		sb.WriteString(l + "\n")
+	}
+	for _, a := range asserts {
+		sb.WriteString("(assert " + Ref(a) + ")\n")
+	}
+	sb.WriteString("(check-sat)\n")
+	vars := VarsOf(asserts...)
+	if wantModel && len(vars) > 0 {
+		sb.WriteString("(get-value (")
+		for _, x := range vars {
+			sb.WriteString(x.Str + " ")
+		}
+		sb.WriteString("))\n")
+	}
+	f, err := os.CreateTemp("", "verif-q-*.smt2")
+	if err != nil {
+		return Unknown, nil
+	}
+	defer os.Remove(f.Name())
+	f.WriteString(sb.String())
+	f.Close()
+	var argv []string
+	secs := int(timeout/time.Second) + 1
+	switch name {
+	case "z3":
+		argv = []string{"z3", fmt.Sprintf("-T:%d", secs), f.Name()}
+	case "z3new":
+		argv = []string{"z3-new", fmt.Sprintf("-T:%d", secs), f.Name()}
+	case "cvc5":
+		argv = []string{"cvc5", fmt.Sprintf("--tlimit=%d", secs*1000), "--produce-models", "--strings-exp", f.Name()}
+	default:
+		return Unknown, nil
+	}
+	cmd := exec.Command(argv[0], argv[1:]...)
+	var out strings.Builder
+	cmd.Stdout = &out
+	cmd.Stderr = &out
+	if err := cmd.Start(); err != nil {
+		return Unknown, nil
+	}
+	done := make(chan struct{})
+	go func() { cmd.Wait(); close(done) }()
+	select {
+	case <-done:
+	case <-cancel:
+		cmd.Process.Kill()
+		<-done
+		return Unknown, nil
+	case <-time.After(timeout + 5*time.Second):
+		cmd.Process.Kill()
+		<-done
+		return Unknown, nil
+	}
+	text := out.String()
+	lines := strings.SplitN(strings.TrimSpace(text), "\n", 2)
+	if len(lines) == 0 {
+		return Unknown, nil
+	}
+	switch strings.TrimSpace(lines[0]) {
+	case "unsat":
+		// an (error line other than the model request after unsat is inconclusive
+		return Unsat, nil
+	case "sat":
+		m := &Model{Vals: map[string]uint64{}, Strs: map[string]string{}}
+		if len(lines) > 1 {
+			if strings.Contains(lines[1], "(error") {
+				return Unknown, nil
+			}
+			m = parseModel(lines[1])
+		}
+		return Sat, m
+	}
+	return Unknown, nil
 }
